@@ -33,7 +33,7 @@ error.
 from __future__ import annotations
 
 import ast
-import hashlib
+import functools
 import itertools
 import json
 import logging
@@ -1131,6 +1131,7 @@ def run_py(src, calls):
     return {"results": out}
 
 
+@functools.lru_cache(maxsize=1)
 def find_node():
     """(path, strip_types_flag) - a node that can run TypeScript directly if there is one."""
     cands = []
@@ -1158,6 +1159,7 @@ def find_node():
     return (best[0], best[1], ".".join(map(str, best[2]))) if best else (None, False, None)
 
 
+@functools.lru_cache(maxsize=1)
 def find_rustc():
     p = shutil.which("rustc") or os.path.expanduser("~/.cargo/bin/rustc")
     return p if p and os.path.exists(p) else None
@@ -1630,11 +1632,11 @@ def run(ctx: Ctx) -> None:
     seen = {json.dumps(a, sort_keys=True) for a in star}
     rest = [a for a in full if json.dumps(a, sort_keys=True) not in seen]
     rng.shuffle(rest)
-    n_extra = len(rest) if thorough else 1200
+    n_extra = 40000 if thorough else 1200
     cases = star + rest[:n_extra]
     # which cases are also executed with node / rustc
     # (both tiers: every single-axis deviation from the baseline; thorough: the whole star set and a sample of the rest)
-    n_exec = 2500 if thorough else 60
+    n_exec = 1500 if thorough else 60
     single = {json.dumps({**BASE, k: v}, sort_keys=True) for k in AXES for v in AXES[k]}
     exec_ids = {i for i, a in enumerate(star) if thorough or json.dumps(a, sort_keys=True) in single}
     pool_ids = list(range(len(star), len(cases)))
@@ -1732,7 +1734,7 @@ def run(ctx: Ctx) -> None:
         name="C07-generated-right-hand-sides",
         tool="enumerated models -> real generate_model_code_py/_ts/_rs/_jl; CPython exec, node, rustc, Julia-subset evaluator; oracle = Model.__call__ of a fresh model",
         bound=(f"{len(outs)} models x 4 languages ({len(star)} = all one- and two-axis deviations from the baseline and all one-axis deviations from two more centres, "
-               f"{len(outs) - len(star)} {'= the rest of the full product' if thorough else 'sampled from the rest of the product'}; product = {len(full)}: "
+               f"{len(outs) - len(star)} sampled from the rest of the product (seeded); product = {len(full)}: "
                f"{len(TOPOS)} topologies with 1..3 variables incl. exactly one, no reaction at all, an untouched first/middle/last variable and reactions that mention variables against declaration order; "
                f"{len(LAWS)} rate laws incl. 8 conditionals against 0 / negative constants and a signed gate parameter baked in as +, 0, -; "
                f"{len(COEFS)} coefficient kinds; {len(DERIVED)} derived layouts with <= 2 derived in both declaration orders, static and state dependent, one computed from a rate; "
@@ -1743,7 +1745,7 @@ def run(ctx: Ctx) -> None:
         cases=checked, distinct_nontrivial=nontrivial,
         rule="one case = one generated program (model x language) read structurally, plus one per executed program compared with the model on the whole grid; "
              "non-trivial = the model's right-hand side is non-zero somewhere on the grid",
-        exhaustive=bool(thorough), samples=samples,
+        exhaustive=False, samples=samples,
     )
     ctx.extra["C07"] = {"models": len(outs), "executed": executed, "shape_unknown": shape_unknown, "workers": workers, "wall_s": round(_time.time() - t0, 1),
                         "cpu_s": round(sum(r["wall"] for r in results), 1), "contract_evaluations": evals,
